@@ -1,13 +1,14 @@
 package main
 
 import (
-	"runtime/pprof"
 	"encoding/json"
 	"flag"
 	"fmt"
 	"os"
 	"path/filepath"
 	"runtime"
+	rdebug "runtime/debug"
+	"runtime/pprof"
 	"sort"
 	"strconv"
 	"strings"
@@ -32,6 +33,7 @@ type CheckCfg struct {
 	Assumptions    []string `json:"assumptions"`
 	Bounds         map[string]string `json:"bounds"`
 	Workers        int      `json:"workers"`
+	ConcIndexMax   int      `json:"concretize_index_max"` // symbolic indices into slices/arrays of at most this many cells are forked over instead of merged
 }
 
 func loadChecks() (map[string]*CheckCfg, error) {
@@ -105,15 +107,6 @@ func main() {
 	}
 	switch os.Args[1] {
 	case "check":
-		if p := os.Getenv("SYMGO_PPROF"); p != "" { // CPU profile of a check run (development aid)
-			if f, err := os.Create(p); err == nil {
-				pprof.StartCPUProfile(f)
-				code := cmdCheck(os.Args[2:])
-				pprof.StopCPUProfile()
-				f.Close()
-				os.Exit(code)
-			}
-		}
 		os.Exit(cmdCheck(os.Args[2:]))
 	case "replay":
 		os.Exit(cmdReplay(os.Args[2:]))
@@ -156,6 +149,12 @@ func cmdCheck(args []string) int {
 	}
 	seed, _ := strconv.Atoi(os.Getenv("VERIF_SEED"))
 	t0 := time.Now()
+	if pf := os.Getenv("SYMGO_PROF"); pf != "" {
+		if f, err := os.Create(pf); err == nil {
+			pprof.StartCPUProfile(f)
+			defer pprof.StopCPUProfile()
+		}
+	}
 
 	checks, err := loadChecks()
 	if err != nil {
@@ -222,9 +221,12 @@ func cmdCheck(args []string) int {
 	// a worker returning from a pipe read (solver answer) must find a free P at once, otherwise it waits for
 	// the 10 ms preemption tick of another CPU-bound worker: keep more Ps than workers
 	runtime.GOMAXPROCS(2*nw + 4)
+	if os.Getenv("GOGC") == "" {
+		rdebug.SetGCPercent(400) // allocation-heavy interpreter, plenty of memory: collect less often
+	}
 	budget := cfg.QuickSecs
 	if budget == 0 {
-		budget = 120
+		budget = 240
 	}
 	if tierN == 1 {
 		budget = cfg.ThoroughSecs
@@ -243,7 +245,7 @@ func cmdCheck(args []string) int {
 	var results []*HarnessResult
 	for _, fn := range fns {
 		h := &Harness{Name: fn.Name(), Prop: id, Pkg: cfg.Pkg, Tier: tierN, MapOrderMax: cfg.MapOrderMax, MaxThreads: cfg.MaxThreads,
-			MaxSchedPoints: cfg.MaxSchedPoints, MaxDecisions: cfg.MaxDecisions, KnownActive: knownActive}
+			MaxSchedPoints: cfg.MaxSchedPoints, MaxDecisions: cfg.MaxDecisions, KnownActive: knownActive, ConcIndexMax: cfg.ConcIndexMax}
 		if h.MaxThreads == 0 {
 			h.MaxThreads = 8
 		}
